@@ -45,6 +45,10 @@ pub struct OpRec {
     pub clk_inv: u64,
     pub clk_ret: u64,
     pub res: Res,
+    /// For a returned heap-backed zone: (address, allocation serial) of the
+    /// reference-counted block its handle points into, as seen when the
+    /// lookup returned.
+    pub zone_block: Option<(usize, u64)>,
 }
 
 pub struct RunState {
@@ -55,6 +59,8 @@ pub struct RunState {
     /// (event seq, fault kind, name) for every atomic disk mutation step.
     pub fault_steps: Vec<(u32, &'static str, Option<usize>)>,
     pub harness_error: Option<String>,
+    /// Is the allocation-level liveness oracle for returned zones armed?
+    pub track_blocks: bool,
 }
 
 // Only the simulated thread holding the baton runs, so this is never
@@ -91,19 +97,54 @@ fn begin_op(thread: u8, kind: OpKind, cache: u32) -> u32 {
             clk_inv: clk,
             clk_ret: clk,
             res: Res::Pending,
+            zone_block: None,
         })
     });
     id
 }
 
+/// The reference-counted block a heap TZif handle points into: the handle
+/// is one word, tag 4 in the low three bits, and the payload pointer is 16
+/// bytes (two counters) into the block. Verified at start-up by
+/// `zone_block_self_check`; `None` for every other kind of handle.
+pub fn zone_block_of(tz: &TimeZone) -> Option<usize> {
+    if std::mem::size_of::<TimeZone>() != std::mem::size_of::<usize>() {
+        return None;
+    }
+    let bits: usize = unsafe { std::mem::transmute_copy(tz) };
+    if bits & 7 != 4 {
+        return None;
+    }
+    Some((bits & !7usize).wrapping_sub(16))
+}
+
+/// Does the layout assumption of `zone_block_of` hold for this build?
+pub fn zone_block_self_check() -> bool {
+    if !crate::alloc::is_enabled() {
+        return false;
+    }
+    let bytes = crate::zonegen::synth_tzif(77, true);
+    let Ok(tz) = TimeZone::tzif("Self/Check", &bytes) else { return false };
+    let Some(addr) = zone_block_of(&tz) else { return false };
+    let live = crate::alloc::live_at(addr).is_some();
+    drop(tz);
+    live && crate::alloc::live_at(addr).is_none()
+}
+
 fn end_op(id: u32, res: Res) {
     let ret = sim::note("op.ret");
     let clk = sim::clock();
+    let block = match res {
+        Res::Zone(ref tz) if with_run(|r| r.track_blocks) => zone_block_of(tz)
+            .map(|addr| (addr, crate::alloc::live_at(addr).map_or(0, |l| l.1))),
+        _ => None,
+    };
     with_run(|r| {
         let op = &mut r.ops[id as usize];
         op.ret = Some(ret);
         op.clk_ret = clk;
         op.res = res;
+        op.zone_block = block;
     });
     sim::set_cur_op(u32::MAX);
 }
@@ -717,6 +758,7 @@ pub fn run_case(case: Arc<Case>, root: PathBuf) {
         next_cache: 0,
         fault_steps: vec![],
         harness_error: None,
+        track_blocks: crate::c19::blocks_armed(),
     });
     sim::with_rt(|rt| rt.mono = case.mono);
     if case.io.rate > 0 {
